@@ -1091,3 +1091,26 @@ benign('C20', 'flag-as-not-all-not-locking', PT, SCAN_OLD, """        worm_gears
 mutant('C13', 'flag-as-not-all-is-false', PT, SCAN_OLD, """        worm_gears = [element for element in self.elements if isinstance(element, WormGear)]
         self.__self_locking = not all(worm_gear.self_locking is False for worm_gear in worm_gears)
 """, 'C13.flag-source')
+_PWM_COUNT_OLD = """        pwm_values = [rule.apply() for rule in self.__rules]
+        applied_rules = sum(
+            [pwm_value is not None for pwm_value in pwm_values]
+        )
+        if applied_rules >= 2:"""
+_PWM_PICK_OLD = """        elif applied_rules == 1:
+            pwm = [
+                self._saturate_pwm(pwm_value)
+                for pwm_value in pwm_values if pwm_value is not None
+            ][0]"""
+_PWM_PICK_NEW = """        elif len(applied_rules) == 1:
+            pwm = [
+                self._saturate_pwm(pwm_value)
+                for pwm_value in applied_rules.values()
+            ][0]"""
+multi('C14', 'proposals-in-dict-keyed-by-rule-kind', 'mutant', [
+    (PC, _PWM_COUNT_OLD, """        pwm_values = {rule.__class__.__name__: rule.apply() for rule in self.__rules}
+        applied_rules = {name: value for name, value in pwm_values.items() if value is not None}
+        if len(applied_rules) >= 2:"""), (PC, _PWM_PICK_OLD, _PWM_PICK_NEW)], 'C14.shape')
+multi('C14', 'proposals-in-dict-keyed-by-position', 'benign', [
+    (PC, _PWM_COUNT_OLD, """        pwm_values = {f'{position}:{rule.__class__.__name__}': rule.apply() for position, rule in enumerate(self.__rules)}
+        applied_rules = {name: value for name, value in pwm_values.items() if value is not None}
+        if len(applied_rules) >= 2:"""), (PC, _PWM_PICK_OLD, _PWM_PICK_NEW)])
